@@ -113,6 +113,12 @@ func genC03(r *rt.Rand, tier string, idx int) *world.Scenario {
 			// a compaction runs while the readers read: a read not below the floor is still exact at every
 			// moment of the compaction (a read below it may be refused)
 			sc.Class += "+compaction"
+			if r.Chance(0.5) {
+				if sc.Extra == nil {
+					sc.Extra = map[string]int64{}
+				}
+				sc.Extra["stall:kv.iter"] = int64(20 + r.Intn(300))
+			}
 			var cl world.Client
 			for i := 0; i < 1+r.Intn(2); i++ {
 				cl.Ops = append(cl.Ops, world.Op{K: "get", Key: keys[0]}, world.Op{K: "compact", Rev: world.Rev{M: "committed", N: -int64(r.Intn(4))}})
